@@ -313,13 +313,15 @@ pub fn c19() -> Outcome {
         let i = match load(&text) { Ok(i) => i, Err(e) => fail!(n, d, "well-formed QPLIB text ({}{}{}) was rejected ({e}):\n{text}", q.o, q.v, q.c) };
         if let Err(e) = check_qp(q, &i) { fail!(n, d, "QPLIB {}{}{} (comments={comments}): {e}\n--- text ---\n{text}", q.o, q.v, q.c); }
     } }
-    let good = render_qp(&qps()[119], false);
+    let good = render_qp(&qps()[119], true);   // with comment and blank lines: the reported line number counts EVERY line of the file
     let bad: Vec<(&str, String)> = vec![
         ("bad problem type", good.replacen("QGQ", "QXQ", 1)),
         ("short problem type", good.replacen("QGQ", "QG", 1)),
         ("bad sense", good.replacen("imize", "imise", 1)),
-        ("count is not a number", good.replacen("\n3\n", "\nthree\n", 1)),
-        ("malformed number", good.replacen("\n1.5\n", "\n1.5.5\n", 1)),
+        ("count is not a number", good.replacen("\n3 # variables", "\nthree # variables", 1)),
+        ("entry count is not a number", good.replacen("\n4\n1 1 1 2", "\nfour\n1 1 1 2", 1)),
+        ("malformed matrix entry", good.replacen("\n2 3 3 -4\n", "\n2 3 x -4\n", 1)),
+        ("malformed number", good.replacen("\n1.5 # default b0", "\n1.5.5 # default b0", 1)),
         ("premature end of file", good[..good.len() / 2].to_string()),
         ("empty file", String::new()),
     ];
@@ -327,7 +329,13 @@ pub fn c19() -> Outcome {
         n += 1; d.insert((1000 + k, false));
         if text == &good { fail!(n, d, "internal: mutation '{name}' did not change the text:\n{good}"); }
         match std::panic::catch_unwind(std::panic::AssertUnwindSafe(|| load(text))) {
-            Ok(Err(e)) => { if !e.contains("line") { fail!(n, d, "error for '{name}' does not carry the line number: {e}"); } }
+            Ok(Err(e)) => {
+                // the offending line: the first line in which the malformed text differs from the well-formed one (premature end: the last line read)
+                let gl: Vec<&str> = good.lines().collect(); let bl: Vec<&str> = text.lines().collect();
+                let want = if *name == "premature end of file" || *name == "empty file" { bl.len() } else { (0..bl.len()).find(|k| gl.get(*k) != bl.get(*k)).map(|k| k + 1).unwrap_or(0) };
+                let got: Option<usize> = e.rfind("at line ").and_then(|p| e[p + 8..].trim_end_matches(')').trim().parse().ok());
+                if got != Some(want) { fail!(n, d, "error for '{name}' carries line {got:?}, the offending line of the file is {want}: {e}\n--- text ---\n{text}"); }
+            }
             Ok(Ok(_)) => fail!(n, d, "malformed QPLIB text accepted ({name}):\n{text}"),
             Err(_) => fail!(n, d, "malformed QPLIB text caused a panic instead of an error ({name}):\n{text}"),
         }
